@@ -2,18 +2,27 @@
 // serialized, and compared with the input: same header length, same non-derived header and option octets, payload untouched.
 #include <tins/tins.h>
 #include "replay_util.h"
+#include <algorithm>
 using namespace Tins;
+static int run(std::vector<uint8_t> b, size_t n);
 int main(int, char** argv) {
     Replay r(argv[1]);
     size_t n = (size_t)r.num("W_n", 28);
     std::vector<uint8_t> b(n, 0);
     for (size_t i = 0; i < 28 && i < n; ++i) { char k[16]; snprintf(k, sizeof k, "W_b%zu", i); b[i] = (uint8_t)r.num(k, 0); }
+    int rc = run(b, n);
+    if (rc == 2 && n > 9) { b[9] = 0xfd; printf("retrying with an unassigned protocol number (the payload's own parser rejected it)\n"); rc = run(b, n); }
+    return rc == 2 ? 0 : rc;
+}
+static int run(std::vector<uint8_t> b, size_t n) {
     ExactBuf in(b);
     try {
         IP p(in.p, (uint32_t)n);
         size_t ihl4 = (b[0] & 0x0f) * 4;
         printf("parsed: %zu options, header_size %u (IHL says %zu), payload %u octets\n", p.options().size(), p.header_size(), ihl4, p.inner_pdu() ? p.inner_pdu()->size() : 0);
         if (p.header_size() != ihl4) { printf("DEFECT: header of %zu octets is re-serialized with %u\n", ihl4, p.header_size()); return 1; }
+        size_t tl = ((size_t)b[2] << 8) | b[3];
+        if (p.inner_pdu() && tl >= ihl4) { size_t want = std::min(n - ihl4, tl - ihl4); if (p.inner_pdu()->size() != want) { printf("DEFECT: total length %zu, header %zu: payload should be %zu octets, parsed %u\n", tl, ihl4, want, p.inner_pdu()->size()); return 1; } }
         std::vector<uint8_t> y;
         try { y = p.serialize(); } catch (const std::exception& e) { printf("DEFECT: an accepted datagram cannot be serialized: %s\n", e.what()); return 1; }
         for (size_t k = 0; k < ihl4 && k < y.size(); ++k) {
@@ -24,6 +33,6 @@ int main(int, char** argv) {
         size_t ps = p.inner_pdu() ? p.inner_pdu()->size() : 0;
         for (size_t k = 0; k < ps && ihl4 + k < y.size() && ihl4 + k < n; ++k)
             if (y[ihl4 + k] != b[ihl4 + k]) { printf("DEFECT: payload octet %zu changed from 0x%02x to 0x%02x\n", k, b[ihl4 + k], y[ihl4 + k]); return 1; }
-    } catch (const malformed_packet&) { printf("input rejected (not an accepted byte string)\n"); return 0; }
+    } catch (const malformed_packet&) { printf("input rejected (not an accepted byte string)\n"); return 2; }
     printf("ok\n"); return 0;
 }
